@@ -74,8 +74,18 @@ def main():
         else:
             sh(["git", "-C", "/repo", "worktree", "remove", "--force", repo])
         sh(["sh", "-c", "rm -rf /dev/shm/qb-vrf-* 2>/dev/null"])
-    with open(respath, "w") as f:
-        json.dump(results, f, indent=1, sort_keys=True)
+    # several people run this at once: merge under a lock instead of overwriting
+    import fcntl
+    with open(respath + ".lock", "w") as lk:
+        fcntl.flock(lk, fcntl.LOCK_EX)
+        cur = json.load(open(respath)) if os.path.exists(respath) else {}
+        for sid in ids:
+            if sid in results:
+                cur[sid] = results[sid]
+        tmp = respath + ".tmp%d" % os.getpid()
+        with open(tmp, "w") as f:
+            json.dump(cur, f, indent=1, sort_keys=True)
+        os.replace(tmp, respath)
 
 
 if __name__ == "__main__":
